@@ -5,6 +5,7 @@
 import asyncio
 import socket
 import struct
+from collections import deque
 from dataclasses import dataclass
 from enum import IntEnum, unique
 from typing import Any, Self
@@ -478,6 +479,9 @@ class DoIPConnection:
         self.separate_diagnostic_message_queue = separate_diagnostic_message_queue
         self._diagnostic_message_queue: asyncio.Queue[DoIPDiagFrame] = asyncio.Queue()
         self._read_queue: asyncio.Queue[DoIPFrame] = asyncio.Queue()
+        # Frames which were taken from the queue by a consumer they were not meant for;
+        # they are handed out again, in their original order, before newer frames.
+        self._unread_frames: deque[DoIPFrame] = deque()
         self._read_task = asyncio.create_task(self._read_worker())
         self._read_task.add_done_callback(
             handle_task_error,
@@ -576,6 +580,8 @@ class DoIPConnection:
         # the connection has been terminated.
         if self._is_closed:
             raise ConnectionError
+        if len(self._unread_frames) > 0:
+            return self._unread_frames.popleft()
         return await self._read_queue.get()
 
     async def read_frame(self) -> DoIPFrame:
@@ -584,6 +590,16 @@ class DoIPConnection:
 
     async def read_diag_request_raw(self) -> DoIPDiagFrame:
         unexpected_packets: list[tuple[Any, Any]] = []
+        try:
+            return await self._read_diag_request_raw(unexpected_packets)
+        finally:
+            # Do not consume unexpected packets, but hand them back for other consumers
+            # (also when this read is cancelled), in front of frames which arrived later
+            self._unread_frames.extendleft(reversed(unexpected_packets))
+
+    async def _read_diag_request_raw(
+        self, unexpected_packets: list[tuple[Any, Any]]
+    ) -> DoIPDiagFrame:
         while True:
             if self.separate_diagnostic_message_queue:
                 return await self._diagnostic_message_queue.get()
@@ -600,10 +616,6 @@ class DoIPConnection:
                 unexpected_packets.append((hdr, payload))
                 continue
 
-            # Do not consume unexpected packets, but re-add them to the queue for other consumers
-            for item in unexpected_packets:
-                await self._read_queue.put(item)
-
             return hdr, payload
 
     async def read_diag_request(self) -> bytes:
@@ -612,6 +624,16 @@ class DoIPConnection:
 
     async def _read_ack(self, prev_data: bytes) -> None:
         unexpected_packets: list[tuple[Any, Any]] = []
+        try:
+            await self._read_ack_skipping(prev_data, unexpected_packets)
+        finally:
+            # Do not consume unexpected packets, but hand them back for other consumers
+            # (also when the caller gives up), in front of frames which arrived later
+            self._unread_frames.extendleft(reversed(unexpected_packets))
+
+    async def _read_ack_skipping(
+        self, prev_data: bytes, unexpected_packets: list[tuple[Any, Any]]
+    ) -> None:
         while True:
             hdr, payload = await self.read_frame_unsafe()
             if not isinstance(payload, DiagnosticMessagePositiveAcknowledgement) and not isinstance(
@@ -640,10 +662,6 @@ class DoIPConnection:
                 unexpected_packets.append((hdr, payload))
                 continue
 
-            # Do not consume unexpected packets, but re-add them to the queue for other consumers
-            for item in unexpected_packets:
-                await self._read_queue.put(item)
-
             if isinstance(payload, DiagnosticMessageNegativeAcknowledgement):
                 raise DoIPNegativeAckError(payload.ACKCode)
             return
@@ -659,9 +677,8 @@ class DoIPConnection:
                 unexpected_packets.append((hdr, payload))
                 continue
 
-            # Do not consume unexpected packets, but re-add them to the queue for other consumers
-            for item in unexpected_packets:
-                await self._read_queue.put(item)
+            # Do not consume unexpected packets, but hand them back for other consumers
+            self._unread_frames.extendleft(reversed(unexpected_packets))
 
             if payload.RoutingActivationResponseCode != RoutingActivationResponseCodes.Success:
                 raise DoIPRoutingActivationDeniedError(payload.RoutingActivationResponseCode)
